@@ -4,6 +4,7 @@
   Models: Model/C11Consolidate.lean (hand, tied by correspondence), Gen/Dtypes.lean (regenerated).
 -/
 import TdVerif.Lemmas.C11Reduce
+import TdVerif.Lemmas.C11Rebuild
 import TdVerif.Gen.Dtypes
 import TdVerif.Lemmas.C11Pytree
 
@@ -208,6 +209,100 @@ theorem structural_keeps_fresh_counterexample :
       ∧ (reduceFixed (step c (.set ["a"] m [9, 9]))) = (observe (step c (.set ["a"] m [9, 9]))) := by
   decide
 
+/-! ### freshness = every key is the view of ITS OWN slot -/
+
+theorem refsAligned_iff : ∀ (es : List Entry) (i0 : Nat),
+    refsAligned i0 es = true ↔ ∀ (j : Nat) (e : Entry), es[j]? = some e → e.ref = .slot (i0 + j) := by
+  intro es
+  induction es with
+  | nil => intro i0; simp [refsAligned]
+  | cons a as ih =>
+    intro i0
+    simp only [refsAligned, Bool.and_eq_true, beq_iff_eq, ih]
+    constructor
+    · rintro ⟨h0, h1⟩ j e he
+      cases j with
+      | zero => simp only [List.getElem?_cons_zero, Option.some.injEq] at he; subst he; simpa using h0
+      | succ j =>
+        simp only [List.getElem?_cons_succ] at he
+        have := h1 j e he
+        rw [this]; congr 1; omega
+    · intro h
+      refine ⟨by simpa using h 0 a (by simp), ?_⟩
+      intro j e he
+      have := h (j + 1) e (by simpa using he)
+      rw [this]; congr 1; omega
+
+/-- a snapshot that is current binds the `j`-th leaf (in iteration order) to the `j`-th slot of the
+    storage, i.e. to the address `storage.data_ptr() + start_j` (`_consolidated_is_current`) … -/
+theorem fresh_own_slot (sn : Snap) (td : TD) (h : describes sn td = true) (j : Nat) (e : Entry)
+    (he : td.entries[j]? = some e) : e.ref = .slot j := by
+  simp only [describes, Bool.and_eq_true] at h
+  have := (refsAligned_iff td.entries 0).1 h.2 j e he
+  simpa using this
+
+/-- … so a tensordict one of whose leaves lives anywhere else — memory of its own, or **another slot of the
+    same storage** — is never taken for current, whatever the metadata say. -/
+theorem foreign_slot_is_stale (sn : Snap) (td : TD) (j : Nat) (e : Entry)
+    (he : td.entries[j]? = some e) (hr : e.ref ≠ .slot j) : describes sn td = false := by
+  cases h : describes sn td with
+  | false => rfl
+  | true => exact absurd (fresh_own_slot sn td h j e he) hr
+
+theorem find_of_nodup : ∀ (es : List Entry) (i : Nat) (e : Entry), (es.map (·.key)).Nodup → es[i]? = some e →
+    es.find? (·.key == e.key) = some e := by
+  intro es
+  induction es with
+  | nil => intro i e _ h; simp at h
+  | cons a as ih =>
+    intro i e hn he
+    simp only [List.map_cons, List.nodup_cons] at hn
+    cases i with
+    | zero =>
+      simp only [List.getElem?_cons_zero, Option.some.injEq] at he
+      subst he; simp
+    | succ i =>
+      simp only [List.getElem?_cons_succ] at he
+      have hmem : e.key ∈ as.map (·.key) := List.mem_map.2 ⟨e, List.mem_of_getElem? he, rfl⟩
+      have hne : (a.key == e.key) = false := by
+        apply beq_false_of_ne
+        intro h; exact hn.1 (h ▸ hmem)
+      simp only [List.find?_cons, hne]
+      exact ih i e hn.2 he
+
+/-- **exchanging two entries after consolidation is detected**, for every tensordict (distinct keys), every
+    fresh snapshot and every two different positions — also when the two entries have the same dtype and
+    shape, where the metadata recomputed from the tensordict are identical to the snapshot's. -/
+theorem swap_is_stale (s : State) (sn : Snap) (hs : s.snap = some sn) (hf : describes sn s.td = true)
+    (hk : (s.td.entries.map (·.key)).Nodup) (i j : Nat) (e1 e2 : Entry) (hij : i ≠ j)
+    (h1 : s.td.entries[i]? = some e1) (h2 : s.td.entries[j]? = some e2) :
+    (step s (.swap e1.key e2.key)).snap = some sn
+      ∧ describes sn (step s (.swap e1.key e2.key)).td = false := by
+  have f1 := find_of_nodup _ i e1 hk h1
+  have f2 := find_of_nodup _ j e2 hk h2
+  simp only [step, f1, f2]
+  refine ⟨hs, ?_⟩
+  apply foreign_slot_is_stale sn _ i ⟨e1.key, e2.lm, e2.ref⟩
+  · simp [List.getElem?_map, h1]
+  · have := fresh_own_slot sn s.td hf j e2 h2
+    simp only [this, ne_eq, Ref.slot.injEq]
+    exact fun h => hij h.symm
+
+/-- The seeded weakening "every leaf is *some* contiguous view of the storage" accepts the exchange of two
+    same-shaped entries — and the snapshot then rebuilds them exchanged back. Two uint8 leaves `a`, `b`:
+    `consolidate; td["a"], td["b"] = td["b"], td["a"]`; also by binding one key to the other's tensor. -/
+theorem swap_needs_own_slot_counterexample :
+    let m : LeafMeta := ⟨"torch.uint8", 1, [2]⟩
+    let s0 : State := ⟨⟨[([], ⟨[2], none, none, false⟩)], [⟨["a"], m, .own [1, 2]⟩, ⟨["b"], m, .own [3, 4]⟩]⟩, none⟩
+    let c := step s0 (.consolidate false)
+    let w := step c (.swap ["a"] ["b"])
+    let a := step c (.assign ["a"] ["b"])
+    (∀ sn, w.snap = some sn → describesSomeSlot sn w.td = true ∧ describes sn w.td = false)
+      ∧ (reducePinned w).norm ≠ (observe w).norm ∧ reduceFixed w = observe w
+      ∧ (∀ sn, a.snap = some sn → describesSomeSlot sn a.td = true ∧ describes sn a.td = false)
+      ∧ (reducePinned a).norm ≠ (observe a).norm ∧ reduceFixed a = observe a := by
+  decide
+
 /-- consolidation into a file puts the result on cpu while the metadata (hence the pickle and
     `from_consolidated`) keeps `device=None`: equality holds only up to `None`≈cpu. -/
 theorem file_device_counterexample :
@@ -215,6 +310,41 @@ theorem file_device_counterexample :
     let s0 : State := ⟨⟨[([], ⟨[2], none, none, false⟩)], [⟨["a"], m, .own [1, 2]⟩]⟩, none⟩
     let c := step s0 (.consolidate true)
     reduceFixed c ≠ observe c ∧ (reduceFixed c).norm = (observe c).norm := by
+  decide
+
+/-! ## 3a. rebuilding from the metadata: jagged nested tensors and lazy stacks -/
+
+/-- **any number of jagged nested tensors in one node, with or without `lengths`, in any order, between
+    any plain leaves**: the loop of `_rebuild_tensordict_files_consolidated` re-assembles exactly the leaves
+    that `_reduce_vals_and_metadata` flattened — each nested tensor with its own values, its own offsets
+    and its own lengths (none when it had none) — whatever the loop variables held before. -/
+theorem njt_rebuild_roundtrip {α} (items : List (Item α)) (nv nl : Option α) :
+    rebuildLoop nv nl (flattenItems items) = some items := rebuildLoop_flatten items nv nl
+
+/-- resetting `nested_lengths` at every `<NJT_VALUES>` is what makes this true: without it the lengths of
+    a nested tensor leak into the next one that has none (replayed on the implementation) -/
+theorem njt_no_reset_counterexample :
+    rebuildLoopNoReset none none (flattenItems [Item.njt "a" 1 (some 2) 3, Item.njt "b" 4 none 5])
+      = some [Item.njt "a" 1 (some 2) 3, Item.njt "b" 4 (some 2) 5] := by
+  decide
+
+/-- **a lazy stack of any length comes back in member order**: `from_dict` fetches `str(0), str(1), …`
+    from the metadata dict, whatever the order of the dict (decimal notation is injective) -/
+theorem lazy_members_roundtrip {α} (ms : List α) (d : List (String × α)) (h : d.Perm (lazyToDict ms)) :
+    lazyFromDict d = some ms := by
+  have hn := (keys_lazyToDictFrom_nodup ms 0).1
+  have hlen : d.length = ms.length := by rw [h.length_eq]; exact length_lazyToDictFrom ms 0
+  unfold lazyFromDict
+  rw [hlen]
+  apply fetchFrom_of_lookup
+  intro j
+  rw [lookup_perm _ d (lazyToDict ms) h ((h.map (·.1)).nodup_iff.2 hn)]
+  exact lookup_lazyToDictFrom ms 0 j
+
+/-- iterating over the *sorted* keys instead is wrong from 11 members on (`"10" < "2"`) and right below -/
+theorem lazy_sorted_counterexample :
+    lazyFromDictSorted (lazyToDict (List.range 11)) = [0, 1, 10, 2, 3, 4, 5, 6, 7, 8, 9]
+      ∧ lazyFromDictSorted (lazyToDict (List.range 10)) = List.range 10 := by
   decide
 
 /-! ## 3b. pytree -/
